@@ -336,6 +336,8 @@ ADDED6 = {
 for _k, _v in ADDED6.items():
     ADDED[_k] = ADDED.get(_k, "") + _v
 ADDED7 = {
+    "C02": " Variants with an explicit router port list shorter / longer than num_ports, the router power-cycled.",
+    "C09": " Variants with an explicit router port list shorter / longer than num_ports, the router power-cycled.",
     "C04": " The shipped scenario's agent also observes two stand-alone link components.",
     "C11": " The mask bit the environment handed out before a step is taken over when it denies (a masked-out action never succeeds, "
            "pre_timestep included).",
